@@ -218,7 +218,7 @@ def run_task(t, mode):
         mutated = [i for i, (a, c) in enumerate(made)
                    if not (np.array_equal(a, c) or (a.dtype.kind == "f" and np.array_equal(a, c, equal_nan=True)))]
         out["inputs_mutated"] = mutated + sorted(set(API_MUT))
-        if t["op"] not in MUTATORS and not np.array_equal(ds_before, np.array(W.flw.idxs_ds)):
+        if (t["op"] not in MUTATORS or t["op"] == "derived_objects") and not np.array_equal(ds_before, np.array(W.flw.idxs_ds)):
             out["object_mutated"] = True
         if t["op"] not in MUTATORS:
             out["cache_mutated"] = sorted(k for k, (v, c) in cached_before.items()
